@@ -80,7 +80,8 @@ func dumpDiags(r *report.Report, from int, path string, textLen int) []any {
 				fp = p.Files[a.File].Path
 				flen = len(p.Files[a.File].Text)
 			}
-			spans = append(spans, []any{int64(a.Start), int64(a.End), a.Primary, fp == path && flen == textLen})
+			_ = flen
+			spans = append(spans, []any{int64(a.Start), int64(a.End), a.Primary, fp == path})
 		}
 		note := ""
 		if len(d.Notes) > 0 {
@@ -90,12 +91,12 @@ func dumpDiags(r *report.Report, from int, path string, textLen int) []any {
 			}
 		}
 		out = append(out, map[string]any{
-			"level": int(sub.Diagnostics[i].Level()),
-			"class": msgClass(d.Message),
-			"msg":   d.Message,
-			"spans": spans,
+			"level":  int(sub.Diagnostics[i].Level()),
+			"class":  msgClass(d.Message),
+			"msg":    d.Message,
+			"spans":  spans,
 			"infile": d.InFile,
-			"note":  note,
+			"note":   note,
 		})
 	}
 	return out
@@ -205,15 +206,20 @@ func xlexCase(in map[string]any) map[string]any {
 			})
 		}
 		ul, ur, uf := keyword.Unknown.Brackets()
+		var affix []any
+		for _, a := range []string{"r", "b", "rb", "R", "B", "br", "x", "", "u", "rbb"} {
+			affix = append(affix, []any{vhlib.Hx([]byte(a)), lx.IsAffix != nil && lx.IsAffix(a, token.String, false)})
+		}
 		return map[string]any{
-			"keywords":       kws,
-			"unknown_br":     []any{int(ul), int(ur), int(uf)},
-			"kw_newline":     int(keyword.Newline),
-			"kw_dot":         int(keyword.Dot),
-			"kw_parens":      int(keyword.Parens),
-			"actions":        []any{int(lexer.DiscardKeyword), int(lexer.HardKeyword), int(lexer.SoftKeyword), int(lexer.BracketKeyword), int(lexer.LineComment), int(lexer.BlockComment)},
-			"kinds":          []any{int(token.Unrecognized), int(token.Space), int(token.Comment), int(token.Ident), int(token.String), int(token.Number), int(token.Keyword)},
-			"levels":         []any{int(report.ICE), int(report.Error), int(report.Warning), int(report.Remark)},
+			"affix":      affix,
+			"keywords":   kws,
+			"unknown_br": []any{int(ul), int(ur), int(uf)},
+			"kw_newline": int(keyword.Newline),
+			"kw_dot":     int(keyword.Dot),
+			"kw_parens":  int(keyword.Parens),
+			"actions":    []any{int(lexer.DiscardKeyword), int(lexer.HardKeyword), int(lexer.SoftKeyword), int(lexer.BracketKeyword), int(lexer.LineComment), int(lexer.BlockComment)},
+			"kinds":      []any{int(token.Unrecognized), int(token.Space), int(token.Comment), int(token.Ident), int(token.String), int(token.Number), int(token.Keyword)},
+			"levels":     []any{int(report.ICE), int(report.Error), int(report.Warning), int(report.Remark)},
 			"cfg": map[string]any{
 				"dotnum": lx.NumberCanStartWithDot, "oldoctal": lx.OldStyleOctal, "asciiident": lx.RequireASCIIIdent,
 				"ext": lx.EscapeExtended, "ask": lx.EscapeAsk, "octal": lx.EscapeOctal, "partialx": lx.EscapePartialX,
@@ -222,12 +228,12 @@ func xlexCase(in map[string]any) map[string]any {
 				"affix_r": lx.IsAffix != nil && lx.IsAffix("r", token.String, false),
 			},
 			"maxfilesize": lexer.MaxFileSize,
-			"white":  ranges(func(r rune) bool { return unicode.In(r, unicode.Pattern_White_Space) }),
-			"digit":  ranges(unicode.IsDigit),
-			"letter": ranges(unicode.IsLetter),
-			"print":  ranges(unicode.IsPrint),
-			"xids":   ranges(unicodex.IsXIDStart),
-			"xidc":   ranges(unicodex.IsXIDContinue),
+			"white":       ranges(func(r rune) bool { return unicode.In(r, unicode.Pattern_White_Space) }),
+			"digit":       ranges(unicode.IsDigit),
+			"letter":      ranges(unicode.IsLetter),
+			"print":       ranges(unicode.IsPrint),
+			"xids":        ranges(unicodex.IsXIDStart),
+			"xidc":        ranges(unicodex.IsXIDContinue),
 		}
 	}
 	panic("bad mode")
